@@ -3,12 +3,8 @@
    specification the engine is compared with; the theorems below are the scoping and loop
    bookkeeping clauses of the property, proved of that semantics for every program. *)
 From MJ Require Import Common.Base Lang.Syntax Lang.Meta Lang.Interp C03.Proofs.
-From MJ Require Import C04.Model.
-From MJ Require Import L2.Instr.
-From MJ Require Import L2.Compile.
-From MJ Require Import L2.Vm.
-From MJ Require Import L2.Simulation.
-From MJ Require Import C03.L2Proofs.
+From MJ Require Import C04.Model L2.Instr L2.Compile L2.Vm L2.Simulation.
+From MJ Require Import C03.L2Pos C03.L2Base C03.L2Inv C03.L2Expr C03.L2Stmt C03.L2Wf C03.L2Proofs.
 
 (* loop.index, index0, revindex, revindex0, first, last and length describe the position [i] in a
    sequence of length [n] actually iterated *)
@@ -85,9 +81,15 @@ Proof. vm_compute. reflexivity. Qed.
    same program, opcode by opcode including jump targets and constants.  The theorems below say
    that this compiler + VM compute what the reference interpreter above defines.
    Vocabulary (L2/Simulation.v): [code_at C pc code]: [code] sits at index [pc] of the program [C];
-   [star c C]: zero or more VM steps; [l2_expr] / [l2_stmt]: the covered fragment; [post] / [unwound] / [lc_fits]: where the VM is after a
-   statement that ended normally or with a loop control, and the scopes a loop control undoes;
-   [overflow]: the VM is about to count the 2^127-th kept item of a filtered loop.
+   [star c C]: zero or more VM steps; [l2_expr] / [l2_stmt]: the covered syntax = all of it, with what
+   the parser guarantees (a comparison has an operator, a call does not repeat a keyword, loop
+   controls only inside loops and not reaching out of a macro body); [post] / [unwound] / [lc_fits]:
+   where the VM is after a statement that ended normally or with a loop control, and the scopes a loop
+   control undoes; [overflow]: the VM is about to count the 2^127-th kept item of a filtered loop (its
+   counter is a checked i128, the interpreter's is not - the one way the VM can fall behind; no
+   sequence in memory is that long); [Inv] / [vok] / [mok] / [wf_code] / [cfg_ok]: what the proof knows
+   of reachable states - every macro value was built by a BuildMacro of the program whose offset
+   points at the macro's code, and no value looks like the VM's keyword-argument bundle.
    ============================================================================================ *)
 
 (* constant folding never changes a result, whatever the fuel (C04's fold_agrees needs fuel >= depth):
@@ -96,56 +98,71 @@ Theorem folded_constant_is_evaluation : forall c esc fuel e v0, as_const e = Som
   forall s v s', eval c fuel esc s e = Ok (v, s') -> v = v0 /\ s' = s.
 Proof. exact fold_inv_all. Qed.
 
-(* Expressions.  For every expression without calls - constants, variables, lists, unary minus, not,
-   + - * // % ~, single and chained comparisons (in / not in included), and, or, if-expressions,
-   subscripts, attributes, filters, tests (negated or not) -, in every undefined mode, context,
-   state, auto-escape setting and for every fuel: if the interpreter evaluates e to v, changing the
-   state from s to s', then the VM started at the first instruction of e's code (placed anywhere in
-   any program, absolute jump targets and all) with any operand stack runs to the instruction after
-   that code with v pushed and exactly the state s'; nothing else of the machine changes. *)
-Theorem compile_expr_correct : forall c C fuel esc e, l2_expr e = true ->
-  forall s v s', eval c fuel esc s e = Ok (v, s') ->
+(* compiled templates are well formed: every BuildMacro points at the code of the macro it builds *)
+Theorem compiled_code_is_well_formed : forall body, wf_code (compile_template body).
+Proof. exact wf_compile_template. Qed.
+
+(* the state invariant is an invariant: evaluation, macro calls and statements whose code is in the
+   program preserve it (values stay built-by-the-program) *)
+Theorem invariant_preserved : forall c C, cfg_ok C c -> wf_code C -> forall fuel,
+  (forall esc e, l2_expr e = true -> forall s v s', Inv C s -> eval c fuel esc s e = Ok (v, s') -> vok C v /\ Inv C s') /\
+  (forall inl l, forallb (l2_stmt inl) l = true -> (exists base lc, code_at C base (compile_stmts l base lc)) ->
+     forall esc s sg s', Inv C s -> exec_list c fuel esc s l = Ok (sg, s') -> Inv C s').
+Proof.
+  intros c C Hc Hw fuel. destruct (inv_all c C Hc Hw fuel) as (E & _ & _ & L). split; [exact E|].
+  intros inl l Hl Hp. exact (L inl l Hl Hp).
+Qed.
+
+(* Expressions - every constructor: constants (folded), variables, lists, unary minus, not, + - * // % ~,
+   single and chained comparisons (in / not in), and, or, if-expressions, subscripts, attributes,
+   filters, tests, and CALLS of macros and functions with positional and keyword arguments (static
+   keyword maps and BuildKwargs), defaults, caller.  In every undefined mode, context, state satisfying
+   the invariant, auto-escape setting and for every fuel: if the interpreter evaluates e to v, changing
+   the state from s to s', then the VM started at the first instruction of e's code (placed anywhere
+   in a well-formed program) with any operand stack runs to the instruction after that code with v
+   pushed and exactly the state s' - a macro call runs the macro's body at its offset on a fresh
+   context with the caller's registers saved, and Return restores them - or stops at [overflow]. *)
+Theorem compile_expr_correct : forall c C, cfg_ok C c -> wf_code C -> forall fuel esc e, l2_expr e = true ->
+  forall s v s', eval c fuel esc s e = Ok (v, s') -> Inv C s ->
   forall base stk escs caps its calls, code_at C base (compile_expr e base) ->
   star c C (mkVm base stk s esc escs caps its calls)
-           (mkVm (base + length (compile_expr e base)) (v :: stk) s' esc escs caps its calls).
-Proof. intros c C fuel esc e Hw s v s' He. exact (sim_all c C fuel esc e Hw s v s' He). Qed.
+           (mkVm (base + length (compile_expr e base)) (v :: stk) s' esc escs caps its calls)
+  \/ (exists σo, star c C (mkVm base stk s esc escs caps its calls) σo /\ overflow C σo).
+Proof.
+  intros c C Hc Hw fuel esc e Hl s v s' He Hi base stk escs caps its calls Hcode.
+  destruct (sim_levels c C Hc Hw fuel) as (E & _). apply starO_inv. exact (E esc e Hl s v s' He Hi base stk escs caps its calls Hcode).
+Qed.
 
-(* Statements: raw text, emit, if / elif / else, set, set-block (with filter), with, filter block,
-   autoescape, for loops (any target incl. unpacking, FILTER = the accumulate loop in front of the real
-   loop, else branch, the loop variable and loop.* through the loop frame, the recursive flag), break
-   and continue - nested in any way, over the expressions above; compiled for ANY enclosing-loop
-   context [lc] ([inl]: loop controls may occur, then [lc] must be a loop; [lc_fits]: the scopes [lc]
-   says are open really are).  If the interpreter runs the statements from s to s' with signal sg,
-   the VM runs from the first instruction of their code to ([post]):
+(* Statements - every constructor: raw text, emit, if / elif / else, set, set-block (with filter), with,
+   filter block, autoescape, for loops (any target incl. unpacking, filter = the accumulate loop, else,
+   the loop variable and loop.* through the loop frame, recursive flag), break and continue, macro
+   declarations (body behind a jump, defaults, Enclose / GetClosure / BuildMacro) and call blocks
+   (caller macro passed as the keyword argument `caller`) - nested in any way, compiled for ANY
+   enclosing-loop context [lc] ([inl]: loop controls may occur, then [lc] must be a loop; [lc_fits]: the
+   scopes [lc] says are open really are).  If the interpreter runs the statements from s to s' with
+   signal sg, the VM runs from the first instruction of their code to a state σ' with [post]:
      sg = normal   - the instruction after their code, same operand stack, state s', and the
-                     auto-escape flag / stack, the capture stack and the loop iterators as they were
-                     (frames pushed by `with` and loops, captures begun by set / filter blocks and
-                     auto-escape settings are all undone);
+                     auto-escape flag / stack, the capture stack and the loop iterators as they were;
      sg = break    - the end of the enclosing loop [lc_end], after undoing exactly the scopes opened
                      since that loop ([unwound]: PopFrame / EndCapture; DiscardTop / PopAutoEscape in
                      front of the jump - the clean-up whose absence was the C05 defect), state s';
      sg = continue - likewise, at the loop's Iterate instruction [lc_iter];
-   or ([overflow], the one way the VM can fall behind the interpreter) to the `Add` that counts the
-   kept items of a filtered loop with 2^127 - 1 items already kept: the VM counts them in a checked
-   i128, the interpreter has no such limit.  No sequence in memory is that long.
-   During the accumulate loop the two machines are NOT in equal states (the interpreter opens a scope
-   per item, the VM keeps one loop frame with hidden counters): the proof relates them and uses that
-   evaluation cannot see those counters (C03/L2Relab.v). *)
-Theorem compile_stmts_correct : forall c C fuel inl l, forallb (l2_stmt inl) l = true ->
-  forall esc s sg s', exec_list c fuel esc s l = Ok (sg, s') ->
+   or stops at [overflow].  During the accumulate loop of a filtered for the two machines are NOT in
+   equal states (the interpreter opens a scope per item, the VM keeps one loop frame with hidden
+   counters): the proof relates them and uses that evaluation cannot see those counters (C03/L2Relab.v). *)
+Theorem compile_stmts_correct : forall c C, cfg_ok C c -> wf_code C -> forall fuel inl l, forallb (l2_stmt inl) l = true ->
+  forall esc s sg s', exec_list c fuel esc s l = Ok (sg, s') -> Inv C s ->
   forall base lc stk escs caps its calls, code_at C base (compile_stmts l base lc) ->
   (inl = true -> lc <> None) -> lc_fits lc (length (s_env s)) (length escs) (length caps) ->
-  exists σ', star c C (mkVm base stk s esc escs caps its calls) σ' /\
-             (post sg lc (base + length (compile_stmts l base lc)) stk s' esc escs caps its calls σ' \/ overflow C σ').
-Proof. intros c C fuel inl l Hw. exact (proj2 (stmts_sim2 c C fuel) inl l Hw). Qed.
-
-Theorem compile_stmt_correct : forall c C fuel inl t, l2_stmt inl t = true ->
-  forall esc s sg s', exec c fuel esc s t = Ok (sg, s') ->
-  forall base lc stk escs caps its calls, code_at C base (compile_stmt t base lc) ->
-  (inl = true -> lc <> None) -> lc_fits lc (length (s_env s)) (length escs) (length caps) ->
-  exists σ', star c C (mkVm base stk s esc escs caps its calls) σ' /\
-             (post sg lc (base + length (compile_stmt t base lc)) stk s' esc escs caps its calls σ' \/ overflow C σ').
-Proof. intros c C fuel inl t Hw. exact (proj1 (stmts_sim2 c C fuel) inl t Hw). Qed.
+  exists σ', post sg lc (base + length (compile_stmts l base lc)) stk s' esc escs caps its calls σ' /\
+    (star c C (mkVm base stk s esc escs caps its calls) σ'
+     \/ (exists σo, star c C (mkVm base stk s esc escs caps its calls) σo /\ overflow C σo)).
+Proof.
+  intros c C Hc Hw fuel inl l Hl esc s sg s' He Hi base lc stk escs caps its calls Hcode Hin Hf.
+  destruct (sim_levels c C Hc Hw fuel) as (_ & _ & _ & L).
+  destruct (L inl l Hl esc s sg s' He Hi base lc stk escs caps its calls Hcode Hin Hf) as [σ' [S P]].
+  exists σ'. split; [exact P|apply starO_inv; exact S].
+Qed.
 
 (* an [overflow] state is a failing run: InvalidOperation from the checked addition *)
 Theorem overflow_is_an_error : forall c C σo, star c C (init_vm c) σo -> overflow C σo ->
@@ -158,29 +175,32 @@ Theorem code_length_independent_of_break_target : forall t base i e e' p,
   length (compile_stmt t base (Some (mkL i e p))) = length (compile_stmt t base (Some (mkL i e' p))).
 Proof. exact compile_len_indep. Qed.
 
-(* Whole templates of that fragment (no loop control outside a loop): whenever the reference
-   interpreter renders the template (final state s: output chunks, scopes, recorded context
-   look-ups), eval_impl's loop on the compiled template terminates in exactly the same state - same
-   output in particular - or stops at the counter overflow described above.
-   PARTIAL - not covered by the simulation proof, tied to the code by the correspondence of the
-   check only (model stream = real stream; model VM = interpreter = engine on generated programs):
-     * macros (declaration behind a jump, defaults, closures: Enclose / GetClosure / BuildMacro),
-       calls of macros and functions (ECall, keyword arguments), call blocks and caller();
-     * `loop(...)` recursion (not expressible in the Lang syntax; the recursive FLAG is covered);
-     * the failing direction: that an evaluation error of the interpreter is the same error of the VM
-       (the theorems are forward simulations of successful runs). *)
-Theorem compile_correct_partial : forall c fuel body s,
+(* compile_correct.  Whole templates of the core fragment, rendered with a context of plain data:
+   whenever the reference interpreter renders the template (final state s: output chunks, scopes,
+   recorded context look-ups), eval_impl's loop on the compiled template terminates in exactly the same
+   state - same output in particular - or stops at the counter overflow of a filtered loop with
+   2^127 - 1 kept items.  Every construct of the Lang syntax is covered (no side condition beyond
+   what the parser guarantees).  What the theorem does NOT say:
+     * the failing direction: it is a forward simulation of successful runs; that an error of the
+       interpreter is the same error of the VM is proved for ... (see compile_expr_error below, if
+       present) and otherwise observed by the three-way agreement of the check only;
+     * `loop(...)` recursion and everything else outside the Lang syntax (tuples, maps, slices, method
+       calls, blocks, includes ...): correspondence of the check only. *)
+Theorem compile_correct : forall c fuel body s,
+  forallb (fun p => data_value (snd p)) (c_root c) = true ->
   forallb (l2_stmt false) body = true -> Interp.run c fuel body = Ok s ->
   (exists n, run_template c n (compile_template body) = Ok s) \/
   (exists σo, star c (compile_template body) (init_vm c) σo /\ overflow (compile_template body) σo).
-Proof. exact template_sim. Qed.
+Proof. exact template_correct. Qed.
 
-(* non-vacuity: a program of the proved fragment (chained comparison with a variable, short-circuit
-   operators, if-expression without else, filters, tests, subscripts, if / elif / else, with,
-   set-block with filter, filter block, autoescape) is in the fragment, renders, and the VM on the
-   compiled code reaches the same state; the stream contains the cleanup block of the chain *)
+(* non-vacuity: a program with every statement constructor (chained comparison with a variable,
+   short-circuit operators, if-expression without else, filters, tests, subscripts, if / elif / else,
+   with, set-block with filter, filter block, autoescape, for with else / unpacking / filter / break /
+   continue, macros with defaults and keyword arguments, caller, call blocks) is in the fragment,
+   renders, and the VM on the compiled code reaches the same state; the hypotheses of the theorems hold
+   for it (plain context, well-formed code, initial state) *)
 Example l2_witness :
-  let x := 100 in let y := 101 in let z := 102 in
+  let x := 100 in let y := 101 in let z := 102 in let mname := 103 in let p := 104 in let m2 := 105 in
   let prog :=
     [SSet x (EList [EConst (LInt 3); EConst (LInt 5)]);
      SIf [(ECmp (EConst (LInt 1)) [(CLt, EItem (EVar x) (EConst (LInt 0))); (CLe, EConst (LInt 3))],
@@ -192,8 +212,6 @@ Example l2_witness :
      SFilterBlock F_upper [SRaw [98]; SEmit (EIf (EVar y) (EConst (LInt 1)) None)];
      SAutoEscape (EConst (LBool true)) [SEmit (EConst (LStr [60]))];
      SEmit (EOr (ECmp (EConst (LInt 7)) [(CNotIn, EVar x)]) (EVar y));
-     (* {% for z in [7, 8, 9, 10] %}{% with x = z %}{% set y %}{% if z == 8 %}{% continue %}{% endif %}
-        {% if loop.last %}{% break %}{% endif %}{% endset %}{{ x }}{{ loop.index }}{% endwith %}{% else %}E{% endfor %} *)
      SFor (TVar z) (EList [EConst (LInt 7); EConst (LInt 8); EConst (LInt 9); EConst (LInt 10)]) None
           [SWith [(x, EVar z)]
              [SSetBlock y [SIf [(ECmp (EVar z) [(CEq, EConst (LInt 8))], [SContinue])] None;
@@ -201,40 +219,27 @@ Example l2_witness :
               SEmit (EVar x); SEmit (EAttr (EVar N_loop) A_index)]]
           (Some [SRaw [69]]) false;
      SFor (TPair y z) (EList []) None [SEmit (EVar y)] (Some [SRaw [69]]) false;
-     (* {% for z in [1, 2, 3, 4] if z != 2 %}{{ z }}{{ loop.length }}{% if loop.index == 2 %}{% break %}{% endif %}{% endfor %} *)
      SFor (TVar z) (EList [EConst (LInt 1); EConst (LInt 2); EConst (LInt 3); EConst (LInt 4)])
           (Some (ECmp (EVar z) [(CNe, EConst (LInt 2))]))
           [SEmit (EVar z); SEmit (EAttr (EVar N_loop) A_length);
-           SIf [(ECmp (EAttr (EVar N_loop) A_index) [(CEq, EConst (LInt 2))], [SBreak])] None] None true] in
+           SIf [(ECmp (EAttr (EVar N_loop) A_index) [(CEq, EConst (LInt 2))], [SBreak])] None] None true;
+     SSet x (EConst (LInt 1));
+     SMacro mname [p] [(p, EConst (LInt 4))] [SEmit (EVar p); SEmit (ECall N_caller [] [])];
+     SCallBlock mname [] [SRaw [99]; SEmit (EVar x)];
+     SMacro m2 [p; y] [(y, EBin OAdd (EVar x) (EConst (LInt 1)))] [SEmit (EVar p); SEmit (EVar y); SEmit (EVar x)];
+     SEmit (ECall m2 [] [(p, EBin OAdd (EVar x) (EVar x))]);
+     SEmit (ECall m2 [EConst (LInt 5)] [(y, EConst (LInt 6))]);
+     SEmit (EFilter F_length (ECall N_range [EConst (LInt 3)] []) [])] in
   let cfg := mkCfg Lenient [] false in
   forallb (l2_stmt false) prog = true /\
-  match Interp.run cfg 50 prog, run_template cfg 400 (compile_template prog) with
-  | Ok s, Ok s' => s = s' /\ output_of s = [50; 54; 65; 66; 38; 108; 116; 59; 84; 114; 117; 101; 55; 49; 57; 51; 69; 49; 51; 51; 51]
-                                          (* 2 6A B &lt; True 71 93 E 13 33 *)
+  match Interp.run cfg 60 prog, run_template cfg 800 (compile_template prog) with
+  | Ok s, Ok s' => s = s' /\ output_of s = [50; 54; 65; 66; 38; 108; 116; 59; 84; 114; 117; 101; 55; 49; 57; 51; 69; 49; 51; 51; 51;
+                                          52; 99; 49; 50; 50; 49; 53; 54; 49; 51]
+                                          (* 2 6A B &lt; True 71 93 E 13 33 | 4c1 | 221 | 561 | 3 *)
   | _, _ => False
   end /\
   existsb (fun i => match i with ISwap => true | _ => false end) (compile_template prog) = true /\
-  existsb (fun i => match i with IPopFrame => true | _ => false end) (cleanup_code [ClCapture; ClFrame]) = true.
-Proof. vm_compute. repeat split. Qed.
-
-(* the model VM also runs what the proof does not cover (loops, loop controls, macros with defaults
-   and keyword arguments, call blocks): here by computation, on every run of the check against the
-   interpreter and the engine *)
-Example l2_beyond_the_proof :
-  let x := 100 in let y := 101 in let mname := 102 in let p := 103 in let m2 := 104 in
-  let prog := [SSet x (EConst (LInt 1));
-               SFor (TVar y) (EList [EConst (LInt 7); EConst (LInt 8); EConst (LInt 9)]) (Some (ECmp (EVar y) [(CNe, EConst (LInt 8))]))
-                    [SWith [(x, EVar y)] [SIf [(EAttr (EVar N_loop) A_last, [SBreak])] None; SEmit (EVar x)]] (Some [SRaw [69]]) false;
-               SMacro mname [p] [(p, EConst (LInt 4))] [SEmit (EVar p); SEmit (ECall N_caller [] [])];
-               SCallBlock mname [] [SRaw [99]];
-               SMacro m2 [p] [] [SEmit (EVar p); SEmit (EVar x)];
-               SEmit (ECall m2 [] [(p, EBin OAdd (EVar x) (EVar x))])] in
-  let cfg := mkCfg Lenient [] false in
-  forallb (l2_stmt false) prog = false /\
-  match Interp.run cfg 50 prog, run_template cfg 500 (compile_template prog) with
-  | Ok s, Ok s' => output_of s = output_of s' /\ output_of s = [55; 52; 99; 50; 49]      (* 7 4c 21 *)
-  | _, _ => False
-  end.
+  existsb (fun i => match i with IBuildMacro _ _ _ => true | _ => false end) (compile_template prog) = true.
 Proof. vm_compute. repeat split. Qed.
 
 Print Assumptions loop_fields_describe_iteration.
@@ -246,9 +251,10 @@ Print Assumptions loop_assignments_invisible.
 Print Assumptions set_persists.
 Print Assumptions if_branch_runs_in_place.
 Print Assumptions folded_constant_is_evaluation.
+Print Assumptions compiled_code_is_well_formed.
+Print Assumptions invariant_preserved.
 Print Assumptions compile_expr_correct.
 Print Assumptions compile_stmts_correct.
-Print Assumptions compile_stmt_correct.
 Print Assumptions overflow_is_an_error.
 Print Assumptions code_length_independent_of_break_target.
-Print Assumptions compile_correct_partial.
+Print Assumptions compile_correct.
